@@ -31,6 +31,14 @@ def _worker(case):
     sig = case["sig"]
     out = {"id": case["id"], "steps": []}
     bb = common.build_bb({"sig": sig, "base": case["base"]})
+    keys_before = list(bb.conditionals.keys())
+    # history on ONE belief-base object: earlier ranking objects with other fact lists (outcome irrelevant) must leave the base as it was
+    for pf in case.get("prior_facts", []):
+        try:
+            PreOCF.init_system_z(bb, facts=[common.to_pysmt(f, sig) for f in pf] or None, extended=case["ext"])
+        except Exception:  # noqa
+            pass
+    out["base_keys_unchanged"] = list(bb.conditionals.keys()) == keys_before
     try:
         facts = [common.to_pysmt(f, sig) for f in case["facts"]] or None
         ocf = PreOCF.init_system_z(bb, facts=facts, extended=case["ext"])
@@ -102,6 +110,8 @@ def run(tier, seed, broken_proof=False):
         nf = rng.choice([0, 0, 1, 2])
         facts = [gen_formula(rng, n, 1, 0.05) if rng.random() < 0.5 else gen_lit(rng, n) for _ in range(nf)]
         c = {"id": "z%d" % i, "n": n, "sig": b["sig"], "base": b["base"], "facts": facts, "ext": ext, "ops": []}
+        if rng.random() < 0.4:
+            c["prior_facts"] = [[gen_lit(rng, n) for _ in range(rng.randrange(1, 3))] for _ in range(rng.randrange(1, 3))]
         worlds = [bits(w) for w in itertools.product([False, True], repeat=n)]
         for _ in range(rng.randrange(4, 9)):
             r = rng.random()
@@ -158,7 +168,10 @@ def run(tier, seed, broken_proof=False):
         im = ires[c["id"]]
         mode = "ext=%s facts=%d" % (c["ext"], len(c["facts"]))
         strata[mode] += 1
-        desc = {"sig": c["sig"], "base": [cond_text(x, c["sig"]) for x in c["base"]], "facts": [to_cl(f, c["sig"]) for f in c["facts"]], "extended": c["ext"]}
+        desc = {"sig": c["sig"], "base": [cond_text(x, c["sig"]) for x in c["base"]], "facts": [to_cl(f, c["sig"]) for f in c["facts"]], "extended": c["ext"],
+                "earlier_objects_on_the_same_base_with_facts": [[to_cl(f, c["sig"]) for f in pf] for pf in c.get("prior_facts", [])]}
+        if c.get("prior_facts"):
+            strata["history-on-one-base-object"] += 1
         if m["part"] == "REFUSE":
             strata["refused"] += 1
             evals += 1
